@@ -192,6 +192,8 @@ class Engine:
         self.events = []
         self.imprecise = []
         self.nfresh = {}
+        self.decided = {}
+        self.keep = []
         self.model = None
         self.threads = []
         self.nblocks = 0
@@ -257,6 +259,19 @@ class Engine:
             return True
         if z3.is_false(cond):
             return False
+        # a condition already decided on this path (same hash-consed term) keeps its value
+        cid = cond.get_id()
+        d = self.decided.get(cid)
+        if d is not None:
+            return d
+        ch = self._decide(cond)
+        self.keep.append(cond)
+        self.decided[cid] = ch
+        if z3.is_not(cond):
+            self.decided[cond.arg(0).get_id()] = not ch
+        return ch
+
+    def _decide(self, cond):
         i = len(self.trace)
         if i < len(self.prefix):
             ch = self.prefix[i]
